@@ -1,5 +1,130 @@
 package instr
 
+import (
+	"fmt"
+	"go/ast"
+	"go/parser"
+	"go/token"
+	"os"
+	"path/filepath"
+	"strings"
+)
+
+// hasFunc reports whether the package directory declares a function (or
+// method, recv non-empty) with that name.
+func hasFunc(dir, recv, name string) bool {
+	fset := token.NewFileSet()
+	pkgs, err := parser.ParseDir(fset, dir, func(fi os.FileInfo) bool { return !strings.HasSuffix(fi.Name(), "_test.go") }, 0)
+	if err != nil {
+		return false
+	}
+	for _, p := range pkgs {
+		for _, f := range p.Files {
+			for _, d := range f.Decls {
+				fd, ok := d.(*ast.FuncDecl)
+				if !ok || fd.Name.Name != name {
+					continue
+				}
+				if recv == "" && fd.Recv == nil {
+					return true
+				}
+				if recv != "" && fd.Recv != nil && len(fd.Recv.List) == 1 && recvName(fd.Recv.List[0].Type) == recv {
+					return true
+				}
+			}
+		}
+	}
+	return false
+}
+
+// hasField reports whether struct typ in dir has a field named field.
+func hasField(dir, typ, field string) bool {
+	fset := token.NewFileSet()
+	pkgs, err := parser.ParseDir(fset, dir, func(fi os.FileInfo) bool { return !strings.HasSuffix(fi.Name(), "_test.go") }, 0)
+	if err != nil {
+		return false
+	}
+	found := false
+	for _, p := range pkgs {
+		for _, f := range p.Files {
+			ast.Inspect(f, func(n ast.Node) bool {
+				ts, ok := n.(*ast.TypeSpec)
+				if !ok || ts.Name.Name != typ {
+					return true
+				}
+				st, ok := ts.Type.(*ast.StructType)
+				if !ok {
+					return true
+				}
+				for _, fl := range st.Fields.List {
+					for _, nm := range fl.Names {
+						if nm.Name == field {
+							found = true
+						}
+					}
+				}
+				return true
+			})
+		}
+	}
+	return found
+}
+
 func genAccessors(repo, outDir string, rep *Report) (map[string]string, error) {
-	return map[string]string{}, nil
+	out := map[string]string{}
+	if err := os.MkdirAll(outDir, 0o755); err != nil {
+		return nil, err
+	}
+	emit := func(pkgDir, content string) error {
+		dst := filepath.Join(outDir, strings.ReplaceAll(pkgDir, "/", "_")+"_zz_verif_access.go")
+		if err := writeIfChanged(dst, []byte(content)); err != nil {
+			return err
+		}
+		out[filepath.Join(repo, pkgDir, "zz_verif_access.go")] = dst
+		return nil
+	}
+	note := func(ok bool, what string) {
+		if ok {
+			rep.AccessorsOK = append(rep.AccessorsOK, what)
+		} else {
+			rep.AccessorsBad = append(rep.AccessorsBad, what)
+		}
+	}
+
+	// --- animation: alphaBlendNRGBA (C09 blend sweep)
+	{
+		dir := filepath.Join(repo, "animation")
+		ok := hasFunc(dir, "", "alphaBlendNRGBA")
+		note(ok, "animation.alphaBlendNRGBA")
+		body := "package animation\n\nimport \"image/color\"\n\n// VerifAlphaBlend exposes alphaBlendNRGBA to the verification harness (overlay only).\nvar VerifAlphaBlend func(src, dst color.NRGBA) color.NRGBA\n"
+		if ok {
+			body += "\nfunc init() { VerifAlphaBlend = alphaBlendNRGBA }\n"
+		}
+		if err := emit("animation", body); err != nil {
+			return nil, err
+		}
+	}
+	// --- internal/lossy: encoder reconstruction planes (C06)
+	{
+		dir := filepath.Join(repo, "internal/lossy")
+		ok := hasFunc(dir, "VP8Encoder", "EncodeFrame")
+		for _, f := range []string{"yPlane", "uPlane", "vPlane", "yStride", "uvStride", "width", "height"} {
+			ok = ok && hasField(dir, "VP8Encoder", f)
+		}
+		note(ok, "lossy.VP8Encoder reconstruction planes")
+		body := "package lossy\n\n// VerifPlanes returns copies of the encoder's reconstruction planes (overlay only).\n"
+		if ok {
+			body += `func (enc *VP8Encoder) VerifPlanes() (w, h int, y, u, v []byte, yStride, uvStride int, ok bool) {
+	return enc.width, enc.height, append([]byte(nil), enc.yPlane...), append([]byte(nil), enc.uPlane...), append([]byte(nil), enc.vPlane...), enc.yStride, enc.uvStride, true
+}
+`
+		} else {
+			body += "func (enc *VP8Encoder) VerifPlanes() (w, h int, y, u, v []byte, yStride, uvStride int, ok bool) { return }\n"
+		}
+		if err := emit("internal/lossy", body); err != nil {
+			return nil, err
+		}
+	}
+	_ = fmt.Sprint
+	return out, nil
 }
